@@ -960,7 +960,7 @@ def binary(conf_mat):
         EDS = 2*math.log(Pobs/nval)/math.log(TP/nval)-1
 
     ORSS = np.nan
-    if theta > -1 and theta < 1:
+    if H > 0 and H < 1 and F > 0 and F < 1:
         ORSS = (theta-1)/(theta+1)
 
     # Random values
